@@ -47,6 +47,7 @@ func (in *Interp) mapFind(m *Map, k Value) *mapEntry {
 	if m == nil {
 		return nil
 	}
+	in.noteMapAccess(m, false)
 	ks, isConc := concKey(k)
 	if isConc {
 		if e := m.conc[ks]; e != nil {
@@ -68,6 +69,7 @@ func (in *Interp) mapFind(m *Map, k Value) *mapEntry {
 }
 
 func (in *Interp) mapInsert(m *Map, k, v Value) {
+	in.noteMapAccess(m, true)
 	if e := in.mapFind(m, k); e != nil {
 		e.val = v
 		return
@@ -87,6 +89,7 @@ func (in *Interp) mapDelete(m *Map, k Value) {
 	if m == nil {
 		return
 	}
+	in.noteMapAccess(m, true)
 	if e := in.mapFind(m, k); e != nil {
 		e.deleted = true
 		if e.isConc {
@@ -261,6 +264,7 @@ func (in *Interp) rangeIter(x Value, t types.Type) iter {
 		if x == nil {
 			return &mapIter{m: nil}
 		}
+		in.noteMapAccess(x, false)
 		return &mapIter{m: x, mode: in.path.mapOrder, visited: map[*mapEntry]bool{}}
 	case string:
 		return &stringIter{s: x}
